@@ -253,11 +253,29 @@ Qed.
 Lemma wrap_nat n i : (i < n)%nat -> wrap n (Z.of_nat i) = Some i.
 Proof. intros H. rewrite wrap_in_range by lia. rewrite Nat2Z.id; auto. Qed.
 
-Lemma inside_wrap g c :
-  geom_ok g = true -> inside g c = true ->
-  wrap (g_rows g) (pix (g_ph g) (c_v c)) = Some (Z.to_nat (pix (g_ph g) (c_v c))) /\
-  wrap (g_cols g) (pix (g_pw g) (c_h c)) = Some (Z.to_nat (pix (g_pw g) (c_h c))) /\
+(* the mask of convert_df_to_array: a kept cluster is written inside the buffer, at its own pixel *)
+Lemma in_range_iff n k : in_range n k = true <-> (0 <= k < Z.of_nat n)%Z.
+Proof. unfold in_range. rewrite andb_true_iff, Z.leb_le, Z.ltb_lt. tauto. Qed.
+
+Lemma kept_iff g c :
+  kept g c = true <->
   (0 <= pix (g_ph g) (c_v c) < Z.of_nat (g_rows g))%Z /\ (0 <= pix (g_pw g) (c_h c) < Z.of_nat (g_cols g))%Z.
+Proof. unfold kept. rewrite andb_true_iff, !in_range_iff. tauto. Qed.
+
+Lemma kept_wrap g c :
+  kept g c = true ->
+  wrap (g_rows g) (pix (g_ph g) (c_v c)) = Some (Z.to_nat (pix (g_ph g) (c_v c))) /\
+  wrap (g_cols g) (pix (g_pw g) (c_h c)) = Some (Z.to_nat (pix (g_pw g) (c_h c))).
+Proof. intros H. apply kept_iff in H. destruct H. split; apply wrap_in_range; auto. Qed.
+
+Lemma hit_exact_kept g c i j :
+  (i < g_rows g)%nat -> (j < g_cols g)%nat -> hit_exact g c i j = true -> kept g c = true.
+Proof.
+  intros Hi Hj H. unfold hit_exact in H. apply andb_true_iff in H. destruct H as [A B].
+  apply Z.eqb_eq in A, B. apply kept_iff. lia.
+Qed.
+
+Lemma inside_kept g c : geom_ok g = true -> inside g c = true -> kept g c = true.
 Proof.
   intros Hg Hi. destruct (geom_ok_pos g Hg) as [P1 P2].
   unfold inside in Hi. repeat rewrite andb_true_iff in Hi. destruct Hi as [[[A B] C] D].
@@ -266,22 +284,34 @@ Proof.
   { apply Qnot_le_lt. intro L. apply Qle_bool_iff in L. rewrite L in B. discriminate. }
   assert (D' : c_h c < inject_Z (Z.of_nat (g_cols g)) * g_pw g).
   { apply Qnot_le_lt. intro L. apply Qle_bool_iff in L. rewrite L in D. discriminate. }
-  pose proof (inside_index _ _ _ P1 A B') as R1. pose proof (inside_index _ _ _ P2 C D') as R2.
-  repeat split; try apply wrap_in_range; lia.
+  apply kept_iff. split; apply inside_index; auto.
 Qed.
 
-Lemma inside_wrappable g c : geom_ok g = true -> inside g c = true -> wrappable g c = true.
+(* conversely: a kept cluster lies inside the sensitive area (the mask is exactly the area) *)
+Lemma kept_inside g c : geom_ok g = true -> kept g c = true -> inside g c = true.
 Proof.
-  intros Hg Hi. destruct (inside_wrap g c Hg Hi) as [A [B _]]. unfold wrappable. rewrite A, B. auto.
-Qed.
-
-Lemma inside_hit g c i j : geom_ok g = true -> inside g c = true -> hit_wrap g c i j = hit_exact g c i j.
-Proof.
-  intros Hg Hi. destruct (inside_wrap g c Hg Hi) as [A [B [R1 R2]]].
-  unfold hit_wrap, hit_exact. rewrite A, B.
-  f_equal.
-  - destruct (Nat.eqb_spec (Z.to_nat (pix (g_ph g) (c_v c))) i); destruct (Z.eqb_spec (pix (g_ph g) (c_v c)) (Z.of_nat i)); auto; lia.
-  - destruct (Nat.eqb_spec (Z.to_nat (pix (g_pw g) (c_h c))) j); destruct (Z.eqb_spec (pix (g_pw g) (c_h c)) (Z.of_nat j)); auto; lia.
+  intros Hg Hk. destruct (geom_ok_pos g Hg) as [P1 P2]. apply kept_iff in Hk. destruct Hk as [[A1 A2] [B1 B2]].
+  destruct (proj2 (pix_bounds (g_ph g) (c_v c) _ P1) eq_refl) as [V1 V2].
+  destruct (proj2 (pix_bounds (g_pw g) (c_h c) _ P2) eq_refl) as [H1 H2].
+  assert (Z1 : 0 <= inject_Z (pix (g_ph g) (c_v c))) by (change 0 with (inject_Z 0); rewrite <- Zle_Qle; lia).
+  assert (Z2 : 0 <= inject_Z (pix (g_pw g) (c_h c))) by (change 0 with (inject_Z 0); rewrite <- Zle_Qle; lia).
+  assert (U1 : inject_Z (pix (g_ph g) (c_v c)) + 1 <= inject_Z (Z.of_nat (g_rows g))).
+  { change 1 with (inject_Z 1). rewrite <- inject_Z_plus, <- Zle_Qle. lia. }
+  assert (U2 : inject_Z (pix (g_pw g) (c_h c)) + 1 <= inject_Z (Z.of_nat (g_cols g))).
+  { change 1 with (inject_Z 1). rewrite <- inject_Z_plus, <- Zle_Qle. lia. }
+  assert (L1 : 0 <= c_v c).
+  { eapply Qle_trans; [|exact V1]. apply Qmult_le_0_compat; auto. apply Qlt_le_weak; auto. }
+  assert (L2 : 0 <= c_h c).
+  { eapply Qle_trans; [|exact H1]. apply Qmult_le_0_compat; auto. apply Qlt_le_weak; auto. }
+  assert (R1 : c_v c < inject_Z (Z.of_nat (g_rows g)) * g_ph g).
+  { eapply Qlt_le_trans; [exact V2|]. apply Qmult_le_compat_r; auto. apply Qlt_le_weak; auto. }
+  assert (R2 : c_h c < inject_Z (Z.of_nat (g_cols g)) * g_pw g).
+  { eapply Qlt_le_trans; [exact H2|]. apply Qmult_le_compat_r; auto. apply Qlt_le_weak; auto. }
+  unfold inside. repeat rewrite andb_true_iff. repeat split.
+  - apply Qle_bool_iff; auto.
+  - apply negb_true_iff. destruct (Qle_bool _ _) eqn:E; auto. apply Qle_bool_iff in E. exfalso; apply (Qlt_not_le _ _ R1 E).
+  - apply Qle_bool_iff; auto.
+  - apply negb_true_iff. destruct (Qle_bool _ _) eqn:E; auto. apply Qle_bool_iff in E. exfalso; apply (Qlt_not_le _ _ R2 E).
 Qed.
 
 (* ---------------------------------------------------------------- credit sums *)
@@ -299,6 +329,21 @@ Proof.
   induction cs; intros H; simpl; [reflexivity|].
   rewrite (H a) by (left; auto). rewrite IHcs; [reflexivity|]. intros c Hc; apply H; right; auto.
 Qed.
+
+(* clusters masked out by `kept` are credited to no pixel of the array *)
+Lemma credit_filter_kept g cs i j :
+  (i < g_rows g)%nat -> (j < g_cols g)%nat ->
+  credit (hit_exact g) (filter (kept g) cs) i j == credit (hit_exact g) cs i j.
+Proof.
+  intros Hi Hj. induction cs as [|c t IH]; simpl; [reflexivity|].
+  destruct (kept g c) eqn:K; simpl.
+  - rewrite IH. reflexivity.
+  - rewrite IH. destruct (hit_exact g c i j) eqn:H; [|ring].
+    rewrite (hit_exact_kept g c i j Hi Hj H) in K. discriminate.
+Qed.
+
+Lemma forallb_filter_id {A} (p : A -> bool) l : forallb p (filter p l) = true.
+Proof. induction l; simpl; auto. destruct (p a) eqn:E; simpl; auto. rewrite E; auto. Qed.
 
 Definition sumf {A} (h : A -> Q) (l : list A) : Q := fold_right (fun x acc => h x + acc) 0 l.
 
@@ -336,18 +381,22 @@ Proof. reflexivity. Qed.
 
 Lemma credit_cell g a i' j' i j :
   geom_ok g = true -> (i' < g_rows g)%nat -> (j' < g_cols g)%nat ->
-  credit (hit_wrap g) (cell g a i' j') i j == if (i' =? i)%nat && (j' =? j)%nat then pos (mget a i' j') else 0.
+  credit (hit_exact g) (cell g a i' j') i j == if (i' =? i)%nat && (j' =? j)%nat then pos (mget a i' j') else 0.
 Proof.
   intros Hg Hi Hj. destruct (geom_ok_pos g Hg) as [P1 P2].
   unfold cell, pos. destruct (gt0 (mget a i' j')) eqn:E; simpl.
-  - unfold hit_wrap; simpl. rewrite !pix_centre by auto. rewrite !wrap_nat by auto.
+  - unfold hit_exact; simpl. rewrite !pix_centre by auto.
+    replace ((Z.of_nat i' =? Z.of_nat i)%Z) with ((i' =? i)%nat)
+      by (destruct (Nat.eqb_spec i' i); destruct (Z.eqb_spec (Z.of_nat i') (Z.of_nat i)); auto; lia).
+    replace ((Z.of_nat j' =? Z.of_nat j)%Z) with ((j' =? j)%nat)
+      by (destruct (Nat.eqb_spec j' j); destruct (Z.eqb_spec (Z.of_nat j') (Z.of_nat j)); auto; lia).
     destruct ((i' =? i)%nat && (j' =? j)%nat); ring.
   - destruct ((i' =? i)%nat && (j' =? j)%nat); reflexivity.
 Qed.
 
 Lemma credit_centres g a i j :
   geom_ok g = true -> (i < g_rows g)%nat -> (j < g_cols g)%nat ->
-  credit (hit_wrap g) (centres g a) i j == pos (mget a i j).
+  credit (hit_exact g) (centres g a) i j == pos (mget a i j).
 Proof.
   intros Hg Hi Hj. rewrite centres_cells, credit_flat_map.
   rewrite (sumf_single _ 0 (g_rows g) i) by
@@ -373,46 +422,46 @@ Proof.
   destruct H as [<-|[]]. exists i, j. simpl. repeat split; try lia. apply gt0_true; auto.
 Qed.
 
-Lemma centres_wrappable g a : geom_ok g = true -> forallb (wrappable g) (centres g a) = true.
-Proof.
-  intros Hg. apply forallb_forall. intros c Hc.
-  destruct (centres_inside g a c Hg Hc) as [i [j [Hi [Hj [Ev [Eh _]]]]]].
-  destruct (geom_ok_pos g Hg) as [P1 P2].
-  unfold wrappable. rewrite Ev, Eh, !pix_centre by auto. rewrite !wrap_nat by auto. reflexivity.
-Qed.
-
 (* ---------------------------------------------------------------- binning *)
 
+(* the loop, on clusters that passed the mask: never out of bounds, each credited to its own pixel *)
 Lemma bin_spec g cs : forall m,
-  Shape (g_rows g) (g_cols g) m -> forallb (wrappable g) cs = true ->
+  Shape (g_rows g) (g_cols g) m -> forallb (kept g) cs = true ->
   exists m', bin g m cs = Some m' /\ Shape (g_rows g) (g_cols g) m' /\
     forall i j, (i < g_rows g)%nat -> (j < g_cols g)%nat ->
-      mget m' i j == mget m i j + credit (hit_wrap g) cs i j.
+      mget m' i j == mget m i j + credit (hit_exact g) cs i j.
 Proof.
   induction cs as [|c t IH]; intros m HS HW; simpl.
   - exists m; repeat split; try apply HS. intros; ring.
   - simpl in HW. apply andb_true_iff in HW. destruct HW as [Hc Ht].
-    unfold wrappable in Hc. unfold bin1.
-    destruct (wrap (g_rows g) (pix (g_ph g) (c_v c))) as [i0|] eqn:E1; [|discriminate].
-    destruct (wrap (g_cols g) (pix (g_pw g) (c_h c))) as [j0|] eqn:E2; [|discriminate].
-    pose proof (wrap_lt _ _ _ E1) as L1. pose proof (wrap_lt _ _ _ E2) as L2.
+    destruct (kept_wrap g c Hc) as [E1 E2]. apply kept_iff in Hc. destruct Hc as [R1 R2].
+    unfold bin1. rewrite E1, E2.
+    set (i0 := Z.to_nat (pix (g_ph g) (c_v c))). set (j0 := Z.to_nat (pix (g_pw g) (c_h c))).
+    assert (L1 : (i0 < g_rows g)%nat) by (unfold i0; lia).
+    assert (L2 : (j0 < g_cols g)%nat) by (unfold j0; lia).
     destruct (IH (mupd m i0 j0 (fun x => x + c_n c)) (Shape_mupd _ _ _ _ _ _ HS) Ht) as [m' [B [S' G]]].
     exists m'; repeat split; auto; try apply S'.
     intros i j Hi Hj. rewrite (G i j Hi Hj).
     rewrite (mget_mupd (g_rows g) (g_cols g)) by auto.
-    assert (Hh : hit_wrap g c i j = (i0 =? i)%nat && (j0 =? j)%nat)
-      by (unfold hit_wrap; rewrite E1, E2; reflexivity).
-    cbn [credit fold_right]. fold (credit (hit_wrap g) t i j). rewrite Hh.
+    assert (Hh : hit_exact g c i j = (i0 =? i)%nat && (j0 =? j)%nat).
+    { unfold hit_exact, i0, j0. f_equal.
+      - destruct (Nat.eqb_spec (Z.to_nat (pix (g_ph g) (c_v c))) i); destruct (Z.eqb_spec (pix (g_ph g) (c_v c)) (Z.of_nat i)); auto; lia.
+      - destruct (Nat.eqb_spec (Z.to_nat (pix (g_pw g) (c_h c))) j); destruct (Z.eqb_spec (pix (g_pw g) (c_h c)) (Z.of_nat j)); auto; lia. }
+    cbn [credit fold_right]. fold (credit (hit_exact g) t i j). rewrite Hh.
     destruct ((i0 =? i)%nat && (j0 =? j)%nat); ring.
 Qed.
 
-Lemma bin_corrupt g cs : forall m, forallb (wrappable g) cs = false -> bin g m cs = None.
+(* convert_df_to_array as a whole, for ANY clusters: defined (no out-of-bounds access), of the
+   detector's shape, and equal to the exact credit -- clusters outside contribute nothing *)
+Lemma to_array_spec g cs :
+  exists m, to_array g cs = Some m /\ Shape (g_rows g) (g_cols g) m /\
+    forall i j, (i < g_rows g)%nat -> (j < g_cols g)%nat -> mget m i j == credit (hit_exact g) cs i j.
 Proof.
-  induction cs as [|c t IH]; intros m H; simpl in *; [discriminate|].
-  apply andb_false_iff in H. unfold bin1.
-  destruct (wrap (g_rows g) (pix (g_ph g) (c_v c))) eqn:E1; auto.
-  destruct (wrap (g_cols g) (pix (g_pw g) (c_h c))) eqn:E2; auto.
-  destruct H as [H|H]; [unfold wrappable in H; rewrite E1, E2 in H; discriminate|]. apply IH; auto.
+  unfold to_array.
+  destruct (bin_spec g (filter (kept g) cs) (zeros (g_rows g) (g_cols g)) (Shape_zeros _ _) (forallb_filter_id _ _))
+    as [m [B [S G]]].
+  exists m. split; [exact B|]. split; [exact S|].
+  intros i j Hi Hj. rewrite (G i j Hi Hj), mget_zeros, credit_filter_kept by auto. ring.
 Qed.
 
 (* ---------------------------------------------------------------- renumber *)
